@@ -86,6 +86,11 @@ def parse_untyped_predicate(
         for parameter_name in untyped_predicate[1:]
     }
 
+    if len(signed_signature) != len(untyped_predicate[1:]):
+        raise SyntaxError(
+            f"The predicate {untyped_predicate} uses the same parameter more than once - this is not supported!"
+        )
+
     return Predicate(
         name=predicate_name, signature=signed_signature, is_positive=is_positive
     )
